@@ -34,7 +34,7 @@ def _collect_subtree(task: 'Task') -> List['Task']:
 
 
 def _has_id_intersection(parent: 'Task', children: Iterable['Task']):
-    parent_root = _find_root(parent)
+    parent_root = parent.wbs._root() if parent.wbs is not None else _find_root(parent)
     parent_tree = _collect_subtree(parent_root)
     all_children_tasks = []
     for ch in children:
